@@ -1,4 +1,5 @@
 import A5.Model.GenericGeo
+import A5.Lemmas.AngularRoundTrip2
 import Mathlib.Analysis.SpecialFunctions.Trigonometric.Basic
 import Mathlib.Analysis.SpecialFunctions.Trigonometric.Deriv
 import Mathlib.Analysis.SpecialFunctions.Trigonometric.Inverse
@@ -24,6 +25,11 @@ Proved:
   spherical cap) and the resulting Jacobian identity in polar coordinates about the apex, *assuming* the
   polar area-sweep formula for the spherical triangle as a hypothesis;
 * T3 `sphere_area_per_triangle`: the constant `4π/(12·10) = π/30` with a rational enclosure.
+
+* T4 `angular_area_fraction` (from `A5/Lemmas/AngularRoundTrip.lean`): the inverse map sends the planar edge fraction
+  `r = w/h` to the point `P` of the spherical edge with `area(a, b, P) = r · area(a, b, c)` - with the code's own area
+  formula - so planar and spherical sub-triangle areas are in the same ratio for every `r`; together with the radial
+  `h²` law (`cap_fraction`) this is the equal-area property in integrated (sector) form, without the sweep hypothesis.
 
 Not proved (kept as `equal_area_jacobian_statement`, assumed nowhere): that the idealised real-number version
 of `polyhedralForward` has constant Jacobian with respect to the sphere's area form. -/
@@ -222,5 +228,21 @@ example : (1 - Real.cos (Real.pi / 2)) / (1 - Real.cos Real.pi) = 1 / 2 := by
 /-- the hypotheses of `equal_area_jacobian_polar` are satisfiable: `W α = (1 − cos T)·α`, `T = π/2` -/
 example : HasDerivAt (fun a : ℝ => (1 - Real.cos (Real.pi / 2)) * a) (1 - Real.cos (Real.pi / 2)) 0 := by
   simpa using (hasDerivAt_id (0 : ℝ)).const_mul (1 - Real.cos (Real.pi / 2))
+
+/-! ## T4: area fractions along the edge are preserved exactly -/
+
+open A5.RadialRoundTrip A5.AngularRoundTrip in
+/-- T4. `angular_area_fraction`: for a counter-clockwise spherical triangle `a b c` (area `E < π`) and every fraction
+`0 < r < 1`, the point `P = slerp(b, c, q)` that the inverse projection designates for the planar edge fraction `r`
+(`q = edgeParamR a b c (r·E)`, the code's `(2/θ)·atan2(g, f)`) lies strictly inside the edge and cuts off exactly the
+fraction `r` of the triangle's area: `area(a, b, P) = r · area(a, b, c)` - the planar sub-triangle `A B P'` with
+`P' = B + r (C - B)` has the fraction `r` of the planar area, so the two area ratios agree for every `r`. -/
+theorem angular_area_fraction {a b c : RadialRoundTrip.R3} (ha : dotR a a = 1) (hb : dotR b b = 1) (hc : dotR c c = 1)
+    (hV : 0 < tripleR a b c) (hD : 0 < 1 + dotR a b + dotR b c + dotR c a) (hγ : slerpSwitch ≤ angleR b c)
+    (r : ℝ) (hr0 : 0 < r) (hr1 : r < 1) :
+    0 < edgeParamR a b c (r * triAreaR a b c) ∧ edgeParamR a b c (r * triAreaR a b c) < 1 ∧
+      triAreaR a b (slerpR b c (edgeParamR a b c (r * triAreaR a b c))) = r * triAreaR a b c := by
+  have hE := (triAreaR_mem ha hb hc hV hD).1
+  exact angular_forward_formula ha hb hc hV hD hγ (mul_pos hr0 hE) (by nlinarith)
 
 end A5.C16
